@@ -411,7 +411,15 @@ def _flow_local(body, l, seen, depth):
                 continue
             decl = Body.callee_decl(t) or ""
             if decl.endswith("ops::Try::branch"):
-                out.append(("propagated", bb) if _try_propagates(body, bb, t) else ("other", (bb, "try")))
+                d = _try_dest(body, bb, t)
+                if d == 0:
+                    out.append(("propagated", bb))
+                elif d is not None and body.locals[d].get("inl_ret"):
+                    # `?` inside an inlined callee: the error becomes the callee's result; what the caller does with it decides
+                    sub = _flow_local(body, d, seen, depth + 1)
+                    out += sub if sub else [("swallowed", "result of an inlined function dropped")]
+                else:
+                    out.append(("other", (bb, "try")))
             elif any(decl.endswith(s) for s in MAP_LIKE):
                 sub = result_flow(body, bb, t, depth + 1)
                 out += [("mapped:" + k, d) for k, d in sub] if sub else [("swallowed", "mapped then dropped")]
@@ -424,18 +432,30 @@ def _flow_local(body, l, seen, depth):
     return out
 
 
-def _try_propagates(body, bb, t):
-    """The Break arm of this Try::branch reaches a from_residual call assigning _0."""
+def _try_dest(body, bb, t):
+    """The local that receives `from_residual(..)` on the Break arm of this Try::branch (0 = the function's return place)."""
     cont, brk = try_arms(body, bb, t)
     if brk is None:
-        return False
+        return None
     for x in body.reachable_from(brk):
         tt = body.term(x)
         if tt.get("k") == "call" and (Body.callee_decl(tt) or "").endswith("FromResidual::from_residual"):
-            if tt["dest"]["l"] == 0:
-                return True
+            if not tt["dest"].get("proj"):
+                return tt["dest"]["l"]
         if tt.get("k") == "switch":
             break
+    return None
+
+
+def _try_propagates(body, bb, t):
+    """The Break arm of this Try::branch reaches a from_residual call assigning _0 (or, in an inlined callee, the callee's return
+    place whose value is in turn propagated or returned by the caller)."""
+    d = _try_dest(body, bb, t)
+    if d == 0:
+        return True
+    if d is not None and body.locals[d].get("inl_ret"):
+        sub = _flow_local(body, d, set(), 0)
+        return bool(sub) and all(k in ("propagated", "returned") for k, _ in sub)
     return False
 
 
